@@ -52,10 +52,13 @@ Inductive ustate := InUse | Revoked.                       (* UsedKeyState *)
 Record objects := mkObjs { o_num : N; o_issued : list N }.
 
 Record tchild := mkChild {
+  tc_id : N;                           (* ID certificate (key) the child was added with (ta.rs:822-829) *)
   tc_used : list (N * ustate);
   tc_reqs : list (N * creq);           (* open_requests, by child key *)
   tc_resps : list (N * cresp) }.       (* open_responses, by child key *)
-Definition empty_child : tchild := mkChild [] [] [].
+(** TrustAnchorChild::new (ta.rs:831-846): nothing used, nothing open. *)
+Definition new_child (id : N) : tchild := mkChild id [] [] [].
+Definition empty_child : tchild := new_child 0.
 
 (** TrustAnchorSignerInfo: ID key of the signer, TA key, objects to publish. *)
 Record sinfo := mkSI { si_id : N; si_ta : N; si_objs : objects }.
@@ -75,7 +78,7 @@ Inductive pcmd :=
 | PUpdateSigner (si : sinfo)
 | PMake (n : N)                        (* the nonce is drawn by Nonce::new (uuid v4): an input here *)
 | PResponse (m : msg response)
-| PAddChild (c : N)
+| PAddChild (c id : N)                 (* AddChildRequest: handle and ID certificate (resources are not modelled) *)
 | PAddReq (c k : N) (r : creq)
 | PGive (c k : N).
 
@@ -84,7 +87,7 @@ Inductive pevent :=
 | EvSignerUpdated (si : sinfo)
 | EvRequestMade (n : N)
 | EvResponse (r : response)
-| EvChildAdded (c : N)
+| EvChildAdded (c id : N)
 | EvChildReq (c k : N) (r : creq)
 | EvChildGiven (c k : N).
 
@@ -99,7 +102,7 @@ Definition apply_child_resp (ch : tchild) (kr : N * cresp) : tchild :=
               | RRevoked => aput (fst kr) Revoked (tc_used ch)
               | RError => tc_used ch
               end in
-  mkChild used (adel (fst kr) (tc_reqs ch)) (aput (fst kr) (snd kr) (tc_resps ch)).
+  mkChild (tc_id ch) used (adel (fst kr) (tc_reqs ch)) (aput (fst kr) (snd kr) (tc_resps ch)).
 Definition apply_child_resps (ch : tchild) (l : list (N * cresp)) : tchild := fold_left apply_child_resp l ch.
 Definition apply_resp_child (chs : list (N * tchild)) (e : N * list (N * cresp)) : list (N * tchild) :=
   match aget (fst e) chs with
@@ -119,18 +122,20 @@ Definition p_apply (p : proxy) (e : pevent) : option proxy :=
       | Some si => Some (mkProxy (p_id p) (Some (mkSI (si_id si) (si_ta si) (r_objs r)))
                                  (apply_resp_children (p_children p) (r_children r)) None)
       end
-  | EvChildAdded c => Some (mkProxy (p_id p) (p_signer p) (aput c empty_child (p_children p)) (p_open p))
+    (* taproxy.rs:219-221: child_details.insert(handle, child) with a NEW TrustAnchorChild - whatever was stored
+     under the handle would be replaced; process_add_child never lets that happen (add_known_child_refused) *)
+  | EvChildAdded c id => Some (mkProxy (p_id p) (p_signer p) (aput c (new_child id) (p_children p)) (p_open p))
   | EvChildReq c k r =>
       match aget c (p_children p) with
       | None => None                                                    (* unwrap, taproxy.rs:225-230 *)
       | Some ch => Some (mkProxy (p_id p) (p_signer p)
-                                 (aput c (mkChild (tc_used ch) (aput k r (tc_reqs ch)) (tc_resps ch)) (p_children p)) (p_open p))
+                                 (aput c (mkChild (tc_id ch) (tc_used ch) (aput k r (tc_reqs ch)) (tc_resps ch)) (p_children p)) (p_open p))
       end
   | EvChildGiven c k =>
       match aget c (p_children p) with
       | None => None                                                    (* unwrap, taproxy.rs:233-238 *)
       | Some ch => Some (mkProxy (p_id p) (p_signer p)
-                                 (aput c (mkChild (tc_used ch) (tc_reqs ch) (adel k (tc_resps ch))) (p_children p)) (p_open p))
+                                 (aput c (mkChild (tc_id ch) (tc_used ch) (tc_reqs ch) (adel k (tc_resps ch))) (p_children p)) (p_open p))
       end
   end.
 
@@ -170,7 +175,8 @@ Section WithValidate.
                  | None => Err ENoSigner
                  end
         end
-    | PAddChild c => match aget c (p_children p) with Some _ => Err EDupChild | None => Ok [EvChildAdded c] end
+    (* process_add_child (taproxy.rs:427-444): a known handle is refused, whatever ID certificate comes with it *)
+    | PAddChild c id => match aget c (p_children p) with Some _ => Err EDupChild | None => Ok [EvChildAdded c id] end
     | PAddReq c k r =>
         match aget c (p_children p) with
         | None => Err EUnknownChild
